@@ -104,7 +104,40 @@ def expr(e, ind=0):
         return f"delay({e['n']}, {expr(e['a'], ind)}, {expr(e['t'], ind)})"
     if k == "raw":
         return e["s"]
+    if k == "splice":
+        return f"$({mexpr(e['m'], ind)})"
+    if k == "macroapp":
+        return f"{e['f']}!(" + ", ".join(mexpr(a, ind) for a in e["as"]) + ")"
     raise ValueError(f"printer: unknown node {k}")
+
+
+def mexpr(m, ind=0):
+    """macro-stage expressions of Staging.tla"""
+    k = m["k"]
+    if k == "mq":
+        return "`" + block(m["t"], ind)
+    if k == "mv":
+        return m["x"]
+    if k == "mfn":
+        return m["f"]
+    if k == "mnum":
+        return str(m["v"]) if m["v"] >= 0 else f"(0 - {-m['v']})"
+    if k == "mflit":
+        return m["s"]
+    if k == "mbin":
+        return f"({mexpr(m['a'], ind)} {m['op']} {mexpr(m['b'], ind)})"
+    if k == "mif":
+        pad = "  " * (ind + 1)
+        return (f"if ({mexpr(m['c'], ind)}) {{\n{pad}{mexpr(m['t'], ind + 1)}\n{'  ' * ind}}} else "
+                f"{{\n{pad}{mexpr(m['e'], ind + 1)}\n{'  ' * ind}}}")
+    if k == "mlet":
+        pad = "  " * (ind + 1)
+        return f"{{\n{pad}let {m['x']} = {mexpr(m['a'], ind + 1)}\n{pad}{mexpr(m['b'], ind + 1)}\n{'  ' * ind}}}"
+    if k == "mcall":
+        return f"{m['f']}(" + ", ".join(mexpr(a, ind) for a in m["as"]) + ")"
+    if k == "mlift":
+        return f"lift_f({mexpr(m['a'], ind)})"
+    raise ValueError(f"printer: unknown macro node {k}")
 
 
 def _refs(e, acc):
@@ -118,6 +151,23 @@ def _refs(e, acc):
     elif isinstance(e, list):
         for v in e:
             _refs(v, acc)
+
+
+def json_names(e):
+    """every string that occurs as a value anywhere in a node (over-approximates the names used)"""
+    acc = set()
+
+    def go(v):
+        if isinstance(v, dict):
+            for x in v.values():
+                go(x)
+        elif isinstance(v, list):
+            for x in v:
+                go(x)
+        elif isinstance(v, str):
+            acc.add(v)
+    go(e)
+    return acc
 
 
 def fn_order(fns):
@@ -165,6 +215,13 @@ def program(p):
         f = fns[n]
         ps = ", ".join(_ann(p_, t_) for p_, t_ in zip(f["ps"], f.get("pty") or [None] * len(f["ps"])))
         out.append(f"fn {n}({ps}){block(f['b'], 0)}")
+    macros = p.get("macros") or {}
+    if macros:
+        out.append("#stage(macro)")
+        morder = sorted(macros, key=lambda n: (any(m != n and m in json_names(macros[n]["b"]) for m in macros), n))
+        for n in morder:
+            out.append(f"fn {n}({', '.join(macros[n]['ps'])}){{\n  {mexpr(macros[n]['b'], 1)}\n}}")
+        out.append("#stage(main)")
     for n in order:
         if n in first:
             emit(n)
